@@ -170,7 +170,7 @@ pub fn plan(prop: &str) -> Option<Plan> {
                 "bytes left in a slice after a failed write and writer reuse after failure are not checked",
                 "values inside the domain predicate of an open known finding are skipped (counted as known.<id>.redirected_draws)",
             ],
-            watchdog_s: 6,
+            watchdog_s: 12,
         },
         "C19" => Plan {
             prop: "C19",
